@@ -67,8 +67,11 @@ def _solve_worker(args):
     from vc import solve
     try:
         if expect_sat:
-            return solve.check_sat_smt2(smt2, timeout_s)
-        return solve.discharge_smt2(smt2, timeout_s=timeout_s, both=both)
+            r = solve.check_sat_smt2(smt2, timeout_s)
+        else:
+            r = solve.discharge_smt2(smt2, timeout_s=timeout_s, both=both)
+        r.get("stats", {}).pop("_select_table", None)
+        return r
     except Exception as e:
         return dict(verdict="error", error=repr(e), time=0.0, attempts=[], stats={}, model=None)
 
